@@ -159,7 +159,13 @@ pub fn gen_boundary_value(r: &mut Rng, cfg: &GenCfg) -> MVal {
             _ => MVal::Str(r.pick(&["", "a", "é"]).to_string()),
         }
     };
-    match r.below(6) {
+    match r.below(7) {
+        6 => {
+            // the same item 65,535 / 65,536 / 65,537 times: where a 16-bit occurrence count first goes wrong
+            let n = *r.pick(&[65_535usize, 65_536, 65_537]);
+            let item = small(r);
+            MVal::Arr((0..n).map(|_| item.clone()).collect())
+        }
         0 => {
             let n = *r.pick(&[255usize, 256, 257, 300]);
             MVal::Arr((0..n).map(|_| small(r)).collect())
@@ -264,6 +270,7 @@ pub fn gen_text_style(r: &mut Rng) -> crate::mval::TextStyle {
         upper_hex: r.chance(1, 2),
         trail: if r.chance(1, 3) { r.below(4) as u8 } else { 0 },
         lead: if r.chance(1, 8) { r.below(4) as u8 } else { 0 },
+        dup_keys: r.chance(1, 8),
         num_form: if r.chance(1, 3) { r.below(3) as u8 } else { 0 },
     }
 }
